@@ -8,10 +8,10 @@ C18 - model of the plugin signer (signer/plugin.go, signer/signer.go, plugin/pro
   else case-insensitive, values are decoded INTO the current field value, `null` is a no-op on
   strings/ints and zeroes maps), descriptor equality + annotation preservation
   (`isPayloadDescriptorValid`), and the unknown-field scan over the *map* decoding with exact keys
-  (`areUnknownAttributesAdded`, last duplicate wins) - including the type assertion that panics
-  when it is not the checked two-value form (fact `c18AssertionChecked`); since 95bb17e also
-  `findDuplicateKey` (any object, at any depth, repeating a member name is refused; fact
-  `c18DuplicateKeysRejected`).
+  (`areUnknownAttributesAdded`, last duplicate wins; the type assertion is the checked two-value
+  form - `scanUnknown false` shows what the unchecked form did); since 95bb17e also
+  `findDuplicateKey` (any object, at any depth, repeating a member name is refused). That the code
+  really has this shape is proved from the TRANSLATED source (Props/C18.lean, section Tie).
 * signature-generator path (`getKeySpec`, `generateSignature`, `pluginPrimitiveSigner.Sign`,
   `GenericSigner.Sign`): key id echo of DescribeKey, key spec decoding, key id echo of
   GenerateSignature, certificate chain parsing, chain / algorithm validation and self-verification
@@ -298,6 +298,7 @@ structure Input where
   sigMode : SigMode
   chain : Chain
   dupKeys : Bool             -- redundant: `payload.dupDeep` (checked by a clause)
+  emptyAnnMap : Bool         -- the request carries an empty non-nil annotation map (nothing reads the difference)
   deriving Repr, FromJson
 
 inductive Outcome | sig | err | panic
@@ -415,9 +416,9 @@ def envelopePath (i : Input) : Obs :=
   else match goDecodePayload i.payload with
     | none => errObs
     | some d =>
-      if Facts.c18DuplicateKeysRejected && i.payload.dupDeep then errObs    -- findDuplicateKey
+      if i.payload.dupDeep then errObs                         -- findDuplicateKey
       else if !descValid i.req d then errObs
-      else match scanUnknown Facts.c18AssertionChecked i.payload with
+      else match scanUnknown true i.payload with             -- the assertion is the checked form
         | .panic => panicObs
         | .unknown ks => if ks.isEmpty then sigObs else errObs
 
